@@ -184,11 +184,13 @@ def c09(ctx):
     ctx.rule = ("TLC enumerates update / recover / deactivate operations with every (from, until) in (0..5)^2 at "
                 "every anchoring time 0..4 (positions 1..4 and the zero-time metadata variant), i.e. all orderings "
                 "and equalities incl. t = from, t = until, t = from + delta, for the maximum operation time delta "
-                "in {0, 1, 2, 3}; the replay compares the resulting state (document changed / commitments advanced / "
+                "in {0, 1, 2, 3, 2 * 10^10}; the replay compares the resulting state (document changed / commitments advanced / "
                 "refused) and the (from, until) pair the parser hands to a recording time validator; then the same "
                 "edges are replayed with every other numeric protocol limit changed in turn.")
     ctx.assumptions = APPLIER_ASSUME
-    tds = [0, 1, 2, 3]  # 0: a missing until then means until = from
+    # 0: a missing until then means until = from; 2 000 000 000 abstract ticks: "longer than any history" (the harness
+    # configures 2 * 10^10 seconds for it - more than a count of nanoseconds can hold)
+    tds = [0, 1, 2, 3, 2000000000]
     first = None
     saved = {}
     for td in tds:
